@@ -356,6 +356,14 @@ type State struct {
 	HavocAll int
 	known    map[*Term]bool // lazily built index of PC (not cloned)
 	knownN   int
+	// Epoch suffixes name lazily created heaps after a havoc of everything, so that a location first
+	// touched after the havoc is not mistaken for its value at function entry.
+	Epoch     string
+	EpochMaps string
+	EpochEv   string
+	EpochGhost string
+	HavocMaps int
+	HavocEv   int
 }
 
 func NewState() *State {
@@ -366,7 +374,8 @@ func NewState() *State {
 func (s *State) Clone() *State {
 	n := &State{PC: append([]*Term(nil), s.PC...), Heaps: make(map[string]Value, len(s.Heaps)), Mems: make(map[string]Value, len(s.Mems)),
 		Cells: make(map[int]Value, len(s.Cells)), Globs: make(map[*ssa.Global]Value, len(s.Globs)), Ghost: make(map[string]Value, len(s.Ghost)),
-		Loops: make(map[string]int, len(s.Loops)), Alloc: s.Alloc, Dead: s.Dead, HavocAll: s.HavocAll}
+		Loops: make(map[string]int, len(s.Loops)), Alloc: s.Alloc, Dead: s.Dead, HavocAll: s.HavocAll,
+		Epoch: s.Epoch, EpochMaps: s.EpochMaps, EpochEv: s.EpochEv, EpochGhost: s.EpochGhost, HavocMaps: s.HavocMaps, HavocEv: s.HavocEv}
 	for k, v := range s.Heaps {
 		n.Heaps[k] = v
 	}
@@ -462,7 +471,11 @@ func (s *State) Heap(key string, ft types.Type) Value {
 	if h, ok := s.Heaps[key]; ok {
 		return h
 	}
-	h := freshOf("H:"+key, ft, liftRef, true)
+	ep := s.Epoch
+	if strings.HasPrefix(key, "map:") && s.EpochMaps != "" {
+		ep = s.EpochMaps
+	}
+	h := freshOf("H:"+key+ep, ft, liftRef, true)
 	s.Heaps[key] = h
 	return h
 }
@@ -472,7 +485,7 @@ func (s *State) Mem(et types.Type) Value {
 	if m, ok := s.Mems[key]; ok {
 		return m
 	}
-	m := freshOf("M:"+key, et, liftMem, true)
+	m := freshOf("M:"+key+s.Epoch, et, liftMem, true)
 	s.Mems[key] = m
 	return m
 }
